@@ -693,7 +693,11 @@ func TestC17(t *testing.T) {
 				r.Count("race_reports", rc.Count)
 				r.Violation(raceSignature(rc.Key), "race detector: "+rc.Key, map[string]any{"batch": tag, "frames": rc.Key, "count": rc.Count, "report": rc.Text})
 			}
+			for _, hz := range cr.Hazards {
+				r.Violation("deadlock", "a goroutine re-acquires a lock it holds: "+hz, map[string]any{"batch": tag, "hazard": hz, "child_blocked_until_stopped": cr.TimedOut})
+			}
 			switch {
+			case cr.TimedOut && len(cr.Hazards) > 0:
 			case cr.TimedOut:
 				r.Inconclusive("child watchdog (" + tag + "), output in " + cr.Output)
 			case cr.Panic != "":
